@@ -243,6 +243,10 @@ def compare(ref, run):
     for k, clause in (('outputs', 'the emitted outputs'), ('ctx', 'the context'), ('state', 'the final state'), ('outcome', 'the result')):
         if run.get(k) != ref.get(k):
             fails.append((k, f'{clause} equal those of the uninterrupted execution', dict(resumed=repr(run.get(k))[:300], reference=repr(ref.get(k))[:300])))
+    rc, fc = run.get('ctx'), ref.get('ctx')
+    if isinstance(rc, dict) and isinstance(fc, dict) and rc == fc and list(rc) != list(fc):
+        fails.append(('ctx-order', 'the context equals that of the uninterrupted execution - entries in the order they were stored (a later '
+                      'step may iterate over them)', dict(resumed=list(rc), reference=list(fc))))
     if run.get('obs_error'):
         fails.append(('accessor-raised', 'the resumed process can be observed', run['obs_error']))
     return fails
